@@ -51,12 +51,22 @@ def generate(src):
     def tick(s):          # time passes (listing the sources / evaluating a schedule takes time): a later clock value, remembered as the last evaluation instant
         g = s.ghost; tt = fresh('t_us', IntSort()); s.pc.append(tt >= g['last_now']); setG(s, last_now=tt, last_eval=tt)
     def h_get_all(ex, st, e, recv, args, kw, k, K):
-        def eff(s, k2, K2): tick(s); return k2(s, 'SCHEDULES')
+        def eff(s, k2, K2): tick(s); setG(s, listed_at=s.ghost['last_now']); return k2(s, 'SCHEDULES')
         return k(st, Tok(eff))       # contract of get_all_schedules: total, one list per source; awaiting it takes time
     def h_items(ex, st, e, recv, args, kw, k, K): return k(st, 'ITEMS')
     def h_get_task_delay(ex, st, e, recv, args, kw, k, K):
-        si, ti = st.env['__si'], st.env['__ti']
-        tick(st)          # get_task_delay reads the clock itself: the schedule is evaluated against this instant
+        si, ti = st.env['__si'], st.env['__ti']; extra = list(args[1:]) + list(kw.values())
+        oblige(st, "loop/evaluate: get_task_delay is asked about the schedule being iterated" + ("" if extra else ", and about nothing else: it reads the clock itself at that moment (UTC-aware, after the listing: contract A of u_delay)") + "  [C13/C14/C15]",
+               BoolVal(len(args) >= 1) if not args else to_val(args[0]) == st.env['__task_v'])
+        if extra:         # get_task_delay(task, <instant>): contract (B) of unit u_delay - its precondition is the caller's duty, checked here
+            a = extra[0]; g = st.ghost
+            if len(extra) > 1 or not (isinstance(a, tuple) and a[0] == 'dt' and len(a) == 3): raise Unsupported("get_task_delay called with " + ast.unparse(e))
+            oblige(st, "loop/evaluate: the instant handed to get_task_delay is a UTC-aware read of the clock (a naive local time would be taken for UTC: every schedule shifted by the host's offset)  [C13/C14/C15]",
+                   BoolVal(bool(a[2]) and any(a[1].eq(r_) for r_ in g['reads'])))
+            oblige(st, "loop/evaluate: a schedule is evaluated against an instant not earlier than the end of the listing that returned it (the delayed send sleeps from now on, not from that instant: a stale instant sends late)  [C14/C15]",
+                   a[1] >= g['listed_at'])
+            setG(st, last_eval=If(a[1] > g['last_eval'], a[1], g['last_eval']))
+        else: tick(st)    # get_task_delay reads the clock itself: the schedule is evaluated against this instant
         ok = st.fork(); ok.pc.append(Not(raises_ve(si, ti)))
         if ex.feasible(ok): k(ok, delay(si, ti))
         f = st.fork(); f.pc.append(raises_ve(si, ti))
@@ -71,10 +81,16 @@ def generate(src):
         setG(st, n=g['n'] + 1, os=Store(g['os'], g['n'], si), ot=Store(g['ot'], g['n'], ti), od=Store(g['od'], g['n'], delay(si, ti)), pos=newpos)
         return k(st, PyObj(fresh('task', IntSort())))
     def h_now(ex, st, e, recv, args, kw, k, K):
-        g = st.ghost; t = fresh('now_us', IntSort()); st.pc.append(t >= g['last_now']); setG(st, last_now=t, reads=g['reads'] + [t]); return k(st, ('dt', t))
+        tzs = list(args) + list(kw.values()); aware = False
+        if (args and kw) or len(tzs) > 1 or any(x != 'tz' for x in kw): raise Unsupported("datetime.now(" + ast.unparse(e) + ")")
+        if tzs:
+            if isinstance(tzs[0], PyCallable) and tzs[0].name in ('pytz.UTC', 'pytz.utc', 'timezone.utc', 'datetime.timezone.utc', 'UTC'): aware = True
+            else: raise Unsupported("datetime.now with a zone other than UTC: " + ast.unparse(e))
+        g = st.ghost; t = fresh('now_us', IntSort()); st.pc.append(t >= g['last_now']); setG(st, last_now=t, reads=g['reads'] + [t]); return k(st, ('dt', t, aware))
     def h_replace(ex, st, e, recv, args, kw, k, K):
         assert isinstance(recv, tuple) and {x.arg for x in e.keywords} == {'second', 'microsecond'}
-        return k(st, ('dt', (recv[1] / (60 * US)) * (60 * US) + ex.as_int(kw['second']) * US + ex.as_int(kw['microsecond'])))
+        setG(st, base=recv[1])          # role: the clock value the next minute boundary is derived from
+        return k(st, ('dt', (recv[1] / (60 * US)) * (60 * US) + ex.as_int(kw['second']) * US + ex.as_int(kw['microsecond']), recv[2]))
     def h_timedelta(ex, st, e, recv, args, kw, k, K): return k(st, ('td', ex.as_int(kw['minutes']) * 60 * US))
     def h_total_seconds(ex, st, e, recv, args, kw, k, K): return k(st, ('secs', recv[1]))
     def h_sleep(ex, st, e, recv, args, kw, k, K):
@@ -84,8 +100,12 @@ def generate(src):
             def got(s, vs):
                 l, r_ = vs
                 if isinstance(l, tuple) and isinstance(r_, tuple):
-                    if isinstance(e.op, ast.Add): return k(s, ('dt', l[1] + r_[1]))
-                    if isinstance(e.op, ast.Sub): return k(s, ('td', l[1] - r_[1]))
+                    if isinstance(e.op, ast.Add): return k(s, ('dt', l[1] + r_[1], l[2] if len(l) > 2 else r_[2]))
+                    if isinstance(e.op, ast.Sub):
+                        if l[0] == 'dt' and r_[0] == 'dt':
+                            if l[2] != r_[2]: raise Unsupported("naive - aware datetime subtraction (TypeError at run time): " + ast.unparse(e))
+                            setG(s, sub=(l[1], r_[1]))          # role: (boundary, the clock value subtracted from it)
+                        return k(s, ('td', l[1] - r_[1]))
                 return None
             if any(isinstance(n, ast.Call) and ast.unparse(n.func) in ('datetime.now', 'timedelta') for n in ast.walk(e)) or ast.unparse(e) == 'next_minute - datetime.now()':
                 return self.ev_list([e.left, e.right], st, got, K)
@@ -121,14 +141,18 @@ def generate(src):
     ex.inline_scope = (src, REL, None)
     st = State(); st.env = {'scheduler': fresh('scheduler'), 'loop': fresh('loop'), 'running_schedules': fresh('running')}
     st.pc += [NS >= 0]; st.facts.append(ForAll([s_], ntasks(s_) >= 0))
-    st.ghost = dict(n=IntVal(0), os=K(IntSort(), IntVal(0)), ot=K(IntSort(), IntVal(0)), od=K(IntSort(), Val.none), pos=Function('pos0', IntSort(), IntSort(), IntSort()), last_now=IntVal(0), last_eval=IntVal(0), reads=[], sleeps=0, slept=None)
+    st.ghost = dict(n=IntVal(0), os=K(IntSort(), IntVal(0)), ot=K(IntSort(), IntVal(0)), od=K(IntSort(), Val.none), pos=Function('pos0', IntSort(), IntSort(), IntSort()), last_now=IntVal(0), last_eval=IntVal(0), listed_at=IntVal(0), base=None, sub=None, reads=[], sleeps=0, slept=None)
     exits = collections.Counter()
     def end_iter(s):
         exits['iteration-end'] += 1; g = s.ghost
         check(s, Inv(g, NS, IntVal(0)), "loop/post: exactly the due schedules are spawned, once each, with their delay  [C15]")
         oblige(s, "loop/post: sleeps exactly once per iteration", BoolVal(g['sleeps'] == 1))
-        n1, n2 = g['reads'][0], g['reads'][1]
-        oblige(s, "loop/post: two clock reads, second not earlier", BoolVal(len(g['reads']) == 2))
+        base, sub = g.get('base'), g.get('sub')
+        roles_ok = base is not None and sub is not None and any(base.eq(r_) for r_ in g['reads']) and any(sub[1].eq(r_) for r_ in g['reads'])
+        oblige(s, "loop/post: the sleep length is (a minute boundary derived from a clock read) - (a clock read)", BoolVal(roles_ok))
+        if not roles_ok: return
+        n1, n2 = base, sub[1]
+        oblige(s, "loop/post: the subtracted clock read is not earlier than the one the boundary is derived from", n2 >= n1)
         oblige(s, "loop/post: sleep argument == next minute boundary after read 1 − read 2  [C15]", g['slept'] == (n1 / (60 * US)) * (60 * US) + 60 * US - n2)
         oblige(s, "loop/post: the minute boundary is taken from a clock read made AFTER the sources were listed and every schedule of this poll was evaluated (so the next poll starts in a later minute than any evaluation of this one - no second poll within the same minute)  [C15]",
                n1 >= g['last_eval'])
